@@ -256,7 +256,8 @@ def install(reg):
                   ("C19-latch", "not self.sent_continue"), ("C19-after-every-earlier-response", "len(self.requests) == 0"),
                   ("holds-requests-lock", "holds('requests_lock')")],
         ensures=[("C19-latched", "self.sent_continue"), ("C19-does-not-uncomplete-the-request", "self.request.completed == old(self.request.completed)")],
-        modifies=["self.total_outbufs_len", "self.connected", "self.last_activity", "self.outbufs", "self.current_outbuf_count", "self.sent_continue"]))
+        modifies=["self.total_outbufs_len", "self.connected", "self.last_activity", "self.outbufs", "self.current_outbuf_count", "self.sent_continue",
+                  "self.request.expect_continue"]))
 
     reg.add(FuncContract(CH + ".handle_write", raises=["OSError"], setup=alias,
         requires=[("io", "role_is('IO')")],
